@@ -1518,6 +1518,25 @@ def specials(rng):
             yield "num:filter-data:" + filt, _r(_mini({4: Stream(d, data)}, res={"XObject": {"I": Ref(4)}}, page_extra={"Contents": Ref(4)}))
 
 
+def objstm_index_cases():
+    """xref-stream rows of type 2 whose member index is the last valid one (N-1), exactly N (the first invalid one: an
+    off-by-one in ObjectStream::get_object_slice indexes `offsets[N]`), N+1 and far beyond; object streams of 1, 2 and 3
+    members; the row of a member, of a page-tree node (reached by typed loading) and of an object that is only resolved.
+    Every object number is read by the walk (obj[n].resolve / obj[n].as.*)."""
+    for comp, extra in (([4], {4: {"A": 1}}), ([4, 5], {4: {"A": 1}, 5: [1, 2]}), ([4, 5, 6], {4: {"A": 1}, 5: [1, 2], 6: 7})):
+        base = _mini(extra)
+        n = len(comp)
+        S = max(base.objects) + 1
+        for idx in (n - 1, n, n + 1, 255, 65535):
+            # a member's own row points past the header
+            yield "num:objstm-index=%d/N=%d" % (idx, n), raw_xstream(base.objects, 1, comp=comp, row_patch={comp[-1]: (2, S, idx)})
+            # the page (object 3, not a member) is said to be member idx: reached through /Kids by typed loading
+            yield "num:objstm-index-page=%d/N=%d" % (idx, n), raw_xstream(base.objects, 1, comp=comp, row_patch={3: (2, S, idx)})
+        # /N understates / overstates the header: the index is tested against the offsets that were READ
+        yield "num:objstm-index=N-lies-low/N=%d" % n, raw_xstream(base.objects, 1, comp=comp, stm_patch=lambda s, n=n: {"N": max(0, n - 1)})
+        yield "num:objstm-index=N-zero/N=%d" % n, raw_xstream(base.objects, 1, comp=comp, stm_patch=lambda s: {"N": 0})
+
+
 FOCI = ("pages", "fonts", "images", "color", "catalog")
 
 
@@ -1529,6 +1548,7 @@ def planted(rng, tier="quick"):
         yield "valid:" + fo, render(doc, "table", rng)
     yield from cycles(rng)
     yield from deep(rng)
+    yield from objstm_index_cases()
     yield from specials(rng)
     for fo in FOCI:
         doc = typed_doc(rng, fo)
